@@ -1,0 +1,19 @@
+//go:build verif
+
+package runtime
+
+import "github.com/gofrs/uuid"
+
+// VerifC05Keys returns the keys of the agent's processes and frames maps (read-only accessor for
+// the verification harness: Frames(id) cannot tell a missing key from an empty list).
+func (a *Agent) VerifC05Keys() (processes, frames []uuid.UUID) {
+	a.mu.RLock()
+	defer a.mu.RUnlock()
+	for id := range a.processes {
+		processes = append(processes, id)
+	}
+	for id := range a.frames {
+		frames = append(frames, id)
+	}
+	return processes, frames
+}
